@@ -337,10 +337,7 @@ impl std::ops::Rem<FeelNumber> for FeelNumber {
   type Output = Self;
   ///
   fn rem(self, rhs: Self) -> Self::Output {
-    Self(dec_reduce(&dec_subtract(
-      &self.0,
-      &dec_multiply(&rhs.0, &dec_floor(&dec_divide(&self.0, &rhs.0))),
-    )))
+    Self(dec_reduce(&dec_modulo(&self.0, &rhs.0)))
   }
 }
 
@@ -355,7 +352,7 @@ impl std::ops::Neg for FeelNumber {
 impl std::ops::RemAssign<FeelNumber> for FeelNumber {
   ///
   fn rem_assign(&mut self, rhs: Self) {
-    self.0 = dec_reduce(&dec_subtract(&self.0, &dec_multiply(&rhs.0, &dec_floor(&dec_divide(&self.0, &rhs.0)))));
+    self.0 = dec_reduce(&dec_modulo(&self.0, &rhs.0));
   }
 }
 
